@@ -48,10 +48,11 @@ LEAVES = [
     ('entity-dec', '&#35;', '#', '#'),
     ('entity-hex', '&#x22;', '&quot;', '"'),
     ('rawhtml', '<b class="k">', '<b class="k">', None),
+    ('link-title-braces', '[t](/u "{inner} {0} %s")', '<a href="/u" title="{inner} {0} %s">t</a>', 't'),
     ('link-title-3-lines', '[t](/u "a\nb\nc")', '<a href="/u" title="a\nb\nc">t</a>', None),
     ('rawhtml-3-lines', 'p <!-- a\nb\nc --> q', 'p <!-- a\nb\nc --> q', None),
 ]
-LINKISH = {'link-title-3-lines', 'link', 'link<>', 'link"', "link'", 'link()', 'ref-full', 'ref-collapsed', 'ref-shortcut', 'autolink', 'automail'}
+LINKISH = {'link-title-braces', 'link-title-3-lines', 'link', 'link<>', 'link"', "link'", 'link()', 'ref-full', 'ref-collapsed', 'ref-shortcut', 'autolink', 'automail'}
 BREAKS = {'hardbreak-spaces', 'hardbreak-backslash', 'softbreak', 'link-title-3-lines', 'rawhtml-3-lines'}
 
 
